@@ -7,6 +7,8 @@ CONSTANTS
   MaxRefs = 60
   Strategy = "ff"
   ExactPool = TRUE
+  AsIs = {}
+  EmptyLive = FALSE
 VIEW view
 CONSTRAINT PoolBound
 INVARIANTS FlagsSane CleanIsDurable Accounting KeysOK CellsOK CatalogOK Limits
